@@ -18,13 +18,19 @@ VARIABLES l,      \* cursor into Trace
           bad,    \* set of <<sid, n, check>>: property-level failures of OBSERVED behaviour
           drift,  \* set of <<sid, n, what>>: the specification is out of step with the code
           lead,   \* set of <<sid, n, what>>: the specification's OWN state violates a property (model-only)
-          sid     \* current scenario id
+          sid,    \* current scenario id
+          kv,     \* THE ORACLE: the plain reference map of C01 (key -> [ver, val, flag]), maintained from the
+                  \* logged operations by the documented arithmetic only -- independent of the transcription's
+                  \* internal state (ref, tree, ctab), so a layout drift can never turn into a false alarm
+          kvTreeOnly \* keys whose last version change wrote no record (check_vhash; C02 adoption)
 
 Trace == ndJsonDeserialize("trace.ndjson")
 
-tvars == <<l, obs, bad, drift, lead, sid>>
+tvars == <<l, obs, bad, drift, lead, sid, kv, kvTreeOnly>>
+KvSame == UNCHANGED <<kv, kvTreeOnly>>
+NoKv == [ver |-> 0, val |-> 0, flag |-> 0, vh |-> 0]
 NoAux == [ok |-> FALSE, b |-> 0, e |-> 0, why |-> ""]
-NoObs == [e |-> [a |-> "none", n |-> 0], pre |-> NoRef, aux |-> NoAux]
+NoObs == [e |-> [a |-> "none", n |-> 0], pre |-> NoKv, aux |-> NoAux]
 
 Ev      == Trace[l]
 IsEv(a) == l <= Len(Trace) /\ Trace[l].a = a
@@ -42,20 +48,57 @@ ConfOf(c) == [hashOf |-> [k \in Keys |-> IF k \in DOMAIN c.hashOf THEN c.hashOf[
 
 \* a logged read result g = [res, val, ver, flag] against reference entry r
 ReadOK(g, r, level) ==
-  IF r.ver = 0 THEN g.res = "miss"
+  \* (at the store level a deleted key may come back as a tombstone payload, ver < 0: a miss for the client)
+  IF r.ver = 0 THEN g.res = "miss" \/ (g.res = "hit" /\ g.ver < 0)
   ELSE IF r.ver < 0 THEN g.res = "miss" \/ (g.res = "hit" /\ g.ver < 0 /\ (level > 1 \/ g.ver = r.ver))
   ELSE g.res = "hit" /\ g.ver > 0 /\ g.val = r.val /\ g.flag = r.flag /\ (level = 3 \/ g.ver = r.ver)
+
+\* the reference map after a logged Set event e (old = kv[e.k])
+KvAfterSet(old, e) ==
+  LET live(v) == [ver |-> v, val |-> e.val, flag |-> e.flag, vh |-> e.vh]
+      sameVal == conf.checkVHash /\ old.ver > 0 /\ old.vh = e.vh /\ e.rev >= 0 IN   \* the code compares 16-bit value hashes
+  IF Colliding(e.k)
+    THEN \* colliding keys: an explicit revision is compared with the version of whichever key owns the shared
+         \* slot (the property excludes their versions), so its ACCEPTANCE is taken from the code; auto-version
+         \* sets and deletes must always take effect
+         IF e.rev = 0 THEN live(Abs(old.ver) + 1)
+         \* (a delete of a live colliding key may be REFUSED with NOT_FOUND when the shared slot holds another
+         \*  key's tombstone -- observation F8c; a refused operation is not an acknowledged write)
+         ELSE IF e.rev < 0 THEN (IF e.res = "ok" THEN [ver |-> -Abs(old.ver) - 1, val |-> 0, flag |-> 0, vh |-> 0] ELSE old)
+         ELSE IF e.wrote THEN live(e.rev) ELSE old
+  ELSE IF sameVal THEN (IF e.rev > 0 /\ Abs(e.rev) > Abs(old.ver) THEN [old EXCEPT !.ver = e.rev] ELSE old)
+  ELSE IF e.rev = 0 THEN live(Abs(old.ver) + 1)
+  ELSE IF e.rev < 0 THEN (IF old.ver > 0 THEN [ver |-> -Abs(old.ver) - 1, val |-> 0, flag |-> 0, vh |-> 0] ELSE old)
+  ELSE IF Abs(e.rev) > Abs(old.ver) THEN live(e.rev) ELSE old
+\* ... and after an Incr event (incr's rule -- old+1 if live, else 1 -- is taken from the code: an assumption)
+KvAfterIncr(old, e) ==
+  LET live == old.ver > 0
+      num == live /\ old.flag = FlagIncr /\ old.val >= NumBase IN
+  IF live /\ ~num THEN old
+  ELSE [ver |-> IF live THEN old.ver + 1 ELSE 1, val |-> NumBase + (IF live THEN old.val - NumBase ELSE 0) + e.d, flag |-> FlagIncr,
+        vh |-> e.vh]
 
 LevelOf(k) == IF Colliding(k) THEN 3 ELSE 1
 \* F7: a superseded TOMBSTONE of a key that is absent from the tree, kept by a pass with begin > 0
 TombTag(x) == IF x.r.ver < 0 /\ tree[HashOf(x.r.k)] = NoSlot /\ gc.begin > 0 THEN "!F7" ELSE ""
 \* known-finding tag: the failing key went through the mechanism of a listed finding
 KfTag(k) == IF k \in DOMAIN gh.kf THEN "!" \o gh.kf[k] ELSE ""
+\* collision findings (narrow signatures):
+\* F8a: a LIVE colliding key MISSES after a restart (the replayed tombstone of another key of its group removed the
+\*      shared slot by hash);  F8b: check_vhash compared the new value hash with the slot of the OTHER key.
+\* F18: a GC pass with merge off treats the current record of a colliding key that does not own the shared slot (and
+\*      is not yet in the collision table) as superseded and drops it.
+KfTagR(k, afteropen, aftergc, res) ==
+  IF k \in DOMAIN gh.kf THEN "!" \o gh.kf[k]
+  ELSE IF Colliding(k) /\ kv[k].ver > 0 /\ aftergc THEN "!F18"
+  ELSE IF Colliding(k) /\ kv[k].ver > 0 /\ afteropen /\ res = "miss" THEN "!F8a"
+  ELSE IF Colliding(k) /\ conf.checkVHash THEN "!F8b"
+  ELSE ""
 
 Checks(o) ==
   LET e == o.e IN
   IF e.a = "Get" THEN
-       (IF ReadOK(e, ref[e.k], LevelOf(e.k)) THEN {} ELSE {<<sid, e.n, (IF Colliding(e.k) THEN "C13_Get" ELSE IF e.aftergc THEN "C03_Get" ELSE IF e.afteropen THEN "C02_Get" ELSE "C01_Get") \o KfTag(e.k)>>})
+       (IF ReadOK(e, kv[e.k], LevelOf(e.k)) THEN {} ELSE {<<sid, e.n, (IF Colliding(e.k) THEN "C13_Get" ELSE IF e.aftergc THEN "C03_Get" ELSE IF e.afteropen THEN "C02_Get" ELSE "C01_Get") \o KfTagR(e.k, e.afteropen, e.aftergc, e.res)>>})
   ELSE IF e.a = "Set" /\ ~Colliding(e.k) THEN
        LET want == IF e.rev < 0 /\ o.pre.ver <= 0 THEN "NOT_FOUND" ELSE "ok" IN
        (IF e.res = want THEN {} ELSE {<<sid, e.n, "C01_SetStatus">>})
@@ -111,19 +154,19 @@ Checks(o) ==
                          THEN D(k) = 0 \/ \E i \in Allowed(k) : recs[i].ver < 0
                        ELSE FALSE
            \* C07: a key not written during the pass reads exactly as the reference map says
-           exact(k, g) == ReadOK(g, ref[k], 2)
+           exact(k, g) == ReadOK(g, kv[k], 2)
            K == {k \in DOMAIN e.reads : k \in Keys /\ ~Colliding(k)}
            prop == IF e.ingc THEN "C07_Recovered" ELSE "C06_Recovered"
            f11(k) == e.reads[k].res = "err" /\ \E i \in 1..Len(e.hintahead) : e.hintahead[i] = e.reads[k].c
-           f6(k) == e.ingc /\ gc.begin = 0 /\ ref[k].ver <= 0 /\ e.reads[k].res = "hit" /\ e.reads[k].ver > 0
+           f6(k) == e.ingc /\ gc.begin = 0 /\ kv[k].ver <= 0 /\ e.reads[k].res = "hit" /\ e.reads[k].ver > 0
        IN IF e.childdied THEN {<<sid, e.n, prop \o "_ChildDied">>}
           ELSE IF ~e.started
             THEN (IF e.inside \/ e.unaligned THEN {} ELSE {<<sid, e.n, prop \o "_Refused">>})
-          ELSE {<<sid, e.n, prop \o (IF f11(k) THEN "!F11" ELSE IF f6(k) THEN "!F6" ELSE "")>> :
+          ELSE {<<sid, e.n, prop \o (IF f11(k) THEN "!F11" ELSE IF f6(k) THEN "!F6" ELSE ""), k>> :
                    k \in {k \in K : IF e.ingc THEN ~exact(k, e.reads[k]) ELSE ~ok(k, e.reads[k])}}
   ELSE IF e.a = "ReadAll" THEN
-       {<<sid, e.n, (IF Colliding(k) THEN "C13_ReadAll" ELSE IF e.aftergc THEN "C03_ReadAll" ELSE IF e.afteropen THEN "C02_ReadAll" ELSE "C01_ReadAll") \o KfTag(k)>> :
-           k \in {k \in DOMAIN e.reads : ~ReadOK(e.reads[k], ref[k], LevelOf(k))}}
+       {<<sid, e.n, (IF Colliding(k) THEN "C13_ReadAll" ELSE IF e.aftergc THEN "C03_ReadAll" ELSE IF e.afteropen THEN "C02_ReadAll" ELSE "C01_ReadAll") \o KfTagR(k, e.afteropen, e.aftergc, e.reads[k].res), k>> :
+           k \in {k \in DOMAIN e.reads : ~ReadOK(e.reads[k], kv[k], LevelOf(k))}}
   ELSE {}
 
 \* the specification's own state must also agree with the reference map (this is where a
@@ -160,45 +203,50 @@ TrReset ==
   /\ ResetMem(ConfOf(Ev.conf))
   /\ disk' = FreshDisk /\ recs' = <<>> /\ ref' = [k \in Keys |-> NoRef] /\ gh' = FreshGh
   /\ Settle /\ obs' = NoObs /\ sid' = Ev.sid
+  /\ kv' = [k \in Keys |-> NoKv] /\ kvTreeOnly' = {}
 
 Stuck(what) == /\ drift' = drift \cup Drift(obs) \cup {<<sid, Ev.n, what>>}
                /\ bad' = bad \cup Checks(obs) /\ lead' = lead \cup StateChecks(obs)
                /\ obs' = NoObs /\ UNCHANGED vars
 
 TrSet ==
-  /\ IsEv("Set") /\ ~OthersBusy /\ Adv /\ sid' = sid
+  /\ IsEv("Set") /\ ~OthersBusy /\ Adv /\ sid' = sid /\ (IF up THEN /\ kv' = [kv EXCEPT ![Ev.k] = KvAfterSet(kv[Ev.k], Ev)]
+                  /\ kvTreeOnly' = IF KvAfterSet(kv[Ev.k], Ev) = kv[Ev.k] THEN kvTreeOnly
+                                   ELSE IF KvAfterSet(kv[Ev.k], Ev).val = kv[Ev.k].val /\ conf.checkVHash /\ Ev.rev > 0 /\ kv[Ev.k].ver > 0 /\ ~Colliding(Ev.k)
+                                     THEN kvTreeOnly \cup {Ev.k} ELSE kvTreeOnly \ {Ev.k}
+           ELSE KvSame)
   /\ IF up
        THEN /\ W_Begin("c1", Ev.k, Ev.val, Ev.rev, Ev.flag, Ev.nblk, Ev.vh)
-            /\ Settle /\ obs' = [e |-> Ev, pre |-> ref[Ev.k], aux |-> NoAux]
+            /\ Settle /\ obs' = [e |-> Ev, pre |-> kv[Ev.k], aux |-> NoAux]
        ELSE Stuck("set-while-down")
 
 TrGet ==
-  /\ IsEv("Get") /\ ~OthersBusy /\ Adv /\ sid' = sid
+  /\ IsEv("Get") /\ ~OthersBusy /\ Adv /\ sid' = sid /\ KvSame
   /\ IF up
-       THEN R_Begin("c1", Ev.k) /\ Settle /\ obs' = [e |-> Ev, pre |-> ref[Ev.k], aux |-> NoAux]
+       THEN R_Begin("c1", Ev.k) /\ Settle /\ obs' = [e |-> Ev, pre |-> kv[Ev.k], aux |-> NoAux]
        ELSE Stuck("get-while-down")
 
 TrIncr ==
-  /\ IsEv("Incr") /\ ~OthersBusy /\ Adv /\ sid' = sid
+  /\ IsEv("Incr") /\ ~OthersBusy /\ Adv /\ sid' = sid /\ (IF up THEN kv' = [kv EXCEPT ![Ev.k] = KvAfterIncr(kv[Ev.k], Ev)] /\ kvTreeOnly' = kvTreeOnly \ {Ev.k} ELSE KvSame)
   /\ IF up
-       THEN I_Begin("c1", Ev.k, Ev.d, Ev.vh) /\ Settle /\ obs' = [e |-> Ev, pre |-> ref[Ev.k], aux |-> NoAux]
+       THEN I_Begin("c1", Ev.k, Ev.d, Ev.vh) /\ Settle /\ obs' = [e |-> Ev, pre |-> kv[Ev.k], aux |-> NoAux]
        ELSE Stuck("incr-while-down")
 
 TrFlush ==
-  /\ IsEv("Flush") /\ ~OthersBusy /\ Adv /\ sid' = sid
-  /\ IF up THEN F_Start("flusher") /\ Settle /\ obs' = [e |-> Ev, pre |-> NoRef, aux |-> NoAux]
+  /\ IsEv("Flush") /\ ~OthersBusy /\ Adv /\ sid' = sid /\ KvSame
+  /\ IF up THEN F_Start("flusher") /\ Settle /\ obs' = [e |-> Ev, pre |-> NoKv, aux |-> NoAux]
      ELSE Stuck("flush-while-down")
 
 TrRotFlush ==
-  /\ IsEv("RotFlush") /\ ~OthersBusy /\ Adv /\ sid' = sid
+  /\ IsEv("RotFlush") /\ ~OthersBusy /\ Adv /\ sid' = sid /\ KvSame
   /\ IF up /\ Ev.ran /\ Ev.c \in Chunks /\ pc[RotName(Ev.c)] = "spawned"
-       THEN F_Enter(RotName(Ev.c)) /\ Settle /\ obs' = [e |-> Ev, pre |-> NoRef, aux |-> NoAux]
+       THEN F_Enter(RotName(Ev.c)) /\ Settle /\ obs' = [e |-> Ev, pre |-> NoKv, aux |-> NoAux]
        ELSE IF ~Ev.ran THEN Settle /\ obs' = NoObs /\ UNCHANGED vars
        ELSE Stuck("rotflush-not-spawned")
 
 TrClose ==
-  /\ IsEv("Close") /\ Quiet /\ Adv /\ sid' = sid
-  /\ IF up THEN CL_Start /\ Settle /\ obs' = [e |-> Ev, pre |-> NoRef, aux |-> NoAux]
+  /\ IsEv("Close") /\ Quiet /\ Adv /\ sid' = sid /\ KvSame
+  /\ IF up THEN CL_Start /\ Settle /\ obs' = [e |-> Ev, pre |-> NoKv, aux |-> NoAux]
      ELSE Stuck("close-while-down")
 
 \* index files deleted by the scenario before reopening: [kind, c, s]
@@ -210,7 +258,16 @@ RmFiles(d, rm) ==
                             IF <<c, j - 1>> \in hints THEN NoFile ELSE d.hintf[c][j]]]]
 
 TrOpen ==
-  /\ IsEv("Open") /\ Quiet /\ Adv /\ sid' = sid
+  /\ IsEv("Open") /\ Quiet /\ Adv /\ sid' = sid /\ (IF ~up
+       THEN /\ kv' = [k \in Keys |->
+                  IF k \notin DOMAIN Ev.meta THEN kv[k]
+                  ELSE IF kv[k].ver < 0
+                    THEN (IF Ev.meta[k] = 0 THEN NoKv
+                          ELSE IF Ev.meta[k] < 0 THEN [kv[k] EXCEPT !.ver = Ev.meta[k]] ELSE kv[k])
+                  ELSE IF k \in kvTreeOnly /\ Ev.meta[k] > 0 THEN [kv[k] EXCEPT !.ver = Ev.meta[k]]
+                  ELSE kv[k]]
+            /\ kvTreeOnly' = {}
+       ELSE KvSame)
   /\ IF ~up
        THEN LET r == Recover(RmFiles(disk, Ev.removed)) IN
             /\ up' = TRUE /\ head' = r.head /\ chk' = r.chk /\ tree' = r.tree /\ hm' = r.hm
@@ -225,7 +282,7 @@ TrOpen ==
                   ELSE ref[k]]
             /\ gh' = [gh EXCEPT !.treeOnly = {}]
             /\ UNCHANGED <<conf, gc, lock, pc, loc, recs>>
-            /\ Settle /\ obs' = [e |-> Ev, pre |-> NoRef, aux |-> NoAux]
+            /\ Settle /\ obs' = [e |-> Ev, pre |-> NoKv, aux |-> NoAux]
        ELSE Stuck("open-while-up")
 
 \* has the specification's GC pass reached the hook point of event e?
@@ -241,7 +298,7 @@ AtPoint(e) ==
     [] OTHER -> FALSE
 
 TrGCStart ==
-  /\ IsEv("GCStart") /\ Quiet /\ Adv /\ sid' = sid
+  /\ IsEv("GCStart") /\ Quiet /\ Adv /\ sid' = sid /\ KvSame
   /\ IF up
        THEN /\ Settle /\ obs' = [e |-> Ev, pre |-> NoRef,
                                  aux |-> RangeOf(Ev.begin, Ev.end, LAMBDA n : IF ToString(n) \in DOMAIN Ev.old THEN Ev.old[ToString(n)] ELSE TRUE)]
@@ -250,40 +307,40 @@ TrGCStart ==
 
 \* a refused request: nothing happens, the refusal must agree with RangeOf
 TrGCRefused ==
-  /\ IsEv("GCRefused") /\ Quiet /\ Adv /\ sid' = sid
+  /\ IsEv("GCRefused") /\ Quiet /\ Adv /\ sid' = sid /\ KvSame
   /\ Settle /\ obs' = [e |-> Ev, pre |-> NoRef,
                         aux |-> RangeOf(Ev.begin, Ev.end, LAMBDA n : IF ToString(n) \in DOMAIN Ev.old THEN Ev.old[ToString(n)] ELSE TRUE)]
   /\ UNCHANGED vars
 
 \* the real pass is parked at a hook point: the specification's pass must be exactly there
 TrGCAt ==
-  /\ IsEv("GCAt") /\ ~OthersBusy /\ AtPoint(Ev) /\ Adv /\ sid' = sid
+  /\ IsEv("GCAt") /\ ~OthersBusy /\ AtPoint(Ev) /\ Adv /\ sid' = sid /\ KvSame
   /\ Settle /\ obs' = NoObs /\ UNCHANGED vars
 
 \* the pass has returned
 TrGC ==
-  /\ IsEv("GC") /\ Quiet /\ Adv /\ sid' = sid
-  /\ Settle /\ obs' = [e |-> Ev, pre |-> NoRef, aux |-> NoAux] /\ UNCHANGED vars
+  /\ IsEv("GC") /\ Quiet /\ Adv /\ sid' = sid /\ KvSame
+  /\ Settle /\ obs' = [e |-> Ev, pre |-> NoKv, aux |-> NoAux] /\ UNCHANGED vars
 
 TrScan ==
-  /\ IsEv("Scan") /\ Quiet /\ Adv /\ sid' = sid
-  /\ Settle /\ obs' = [e |-> Ev, pre |-> NoRef, aux |-> NoAux] /\ UNCHANGED vars
+  /\ IsEv("Scan") /\ Quiet /\ Adv /\ sid' = sid /\ KvSame
+  /\ Settle /\ obs' = [e |-> Ev, pre |-> NoKv, aux |-> NoAux] /\ UNCHANGED vars
 
 TrRecovered ==
-  /\ IsEv("Recovered") /\ Quiet /\ Adv /\ sid' = sid
-  /\ Settle /\ obs' = [e |-> Ev, pre |-> NoRef, aux |-> NoAux] /\ UNCHANGED vars
+  /\ IsEv("Recovered") /\ Quiet /\ Adv /\ sid' = sid /\ KvSame
+  /\ Settle /\ obs' = [e |-> Ev, pre |-> NoKv, aux |-> NoAux] /\ UNCHANGED vars
 
 TrReadAll ==
-  /\ IsEv("ReadAll") /\ Quiet /\ Adv /\ sid' = sid
-  /\ Settle /\ obs' = [e |-> Ev, pre |-> NoRef, aux |-> NoAux] /\ UNCHANGED vars
+  /\ IsEv("ReadAll") /\ Quiet /\ Adv /\ sid' = sid /\ KvSame
+  /\ Settle /\ obs' = [e |-> Ev, pre |-> NoKv, aux |-> NoAux] /\ UNCHANGED vars
 
 TrEnd ==
-  /\ IsEv("End") /\ Quiet /\ Adv /\ sid' = sid
+  /\ IsEv("End") /\ Quiet /\ Adv /\ sid' = sid /\ KvSame
   /\ Settle /\ obs' = NoObs /\ UNCHANGED vars
 
 \* an event this specification has no action for: skip it, note it
 TrOther ==
-  /\ l <= Len(Trace) /\ Quiet /\ Adv /\ sid' = sid
+  /\ l <= Len(Trace) /\ Quiet /\ Adv /\ sid' = sid /\ KvSame
   /\ Trace[l].a \notin {"Reset", "Set", "Get", "Incr", "Flush", "RotFlush", "Close", "Open", "ReadAll", "End", "GC", "GCStart", "GCRefused", "GCAt", "Scan", "Recovered"}
   /\ Stuck("unknown-event")
 
@@ -296,7 +353,8 @@ Silent == /\ UNCHANGED tvars
              \/ (~OthersBusy /\ GCMayRun /\ GCProcStep)
 
 TraceInit ==
-  /\ l = 1 /\ obs = NoObs /\ bad = {} /\ drift = {} /\ lead = {} /\ sid = "" /\ TLCSet(1, 1)
+  /\ l = 1 /\ obs = NoObs /\ bad = {} /\ drift = {} /\ lead = {} /\ sid = ""
+  /\ kv = [k \in Keys |-> NoKv] /\ kvTreeOnly = {} /\ TLCSet(1, 1)
   /\ Init([hashOf |-> [k \in Keys |-> CHOOSE h \in HashIds : TRUE], rank |-> [k \in Keys |-> 0], fileMax |-> 4,
            splitCap |-> 2, checkVHash |-> FALSE, dumpEager |-> FALSE, bodyMaxBlk |-> 1, mut |-> {}])
 
